@@ -62,8 +62,8 @@ PROPS = {
         "rule": "C10 programs: default pool + 0-2 extra pools (1-3 workers, own policy) created through the resource partitioner; "
                 "2-30 submissions (schedule|then, execute, transfer_just, continues_on between pools, bulk, hinted tasks, "
                 "std_thread_scheduler) from main, from tasks and from OS threads; every callable records pool, worker and "
-                "whether it runs inside the submitting call; hinted normal-priority tasks on static pools check every phase.",
-        "required_probes": ["continues_on", "bulk", "std_thread", "hinted_phase_on_static_pool"],
+                "whether it runs inside the submitting call; hinted normal-priority tasks on static pools check every phase, phases are separated by yields or by suspensions on a semaphore released by another task or an OS thread at a drawn distance.",
+        "required_probes": ["continues_on", "bulk", "std_thread", "hinted_phase_on_static_pool", "hinted_phase_after_suspension_on_static_pool", "hinted_task_suspended"],
     },
     "C11": {
         "quick_runs": 20000, "thorough_runs": 300000, "seed": 11000001,
